@@ -130,6 +130,7 @@ void guard_init(int nslots);
  * as alignment allows), PL_START the first byte. Memory is canary-filled around the object. */
 void *guard_alloc(int slot, const char *kind, size_t n, size_t align, enum place pl);
 void guard_reset_slot(int slot);
+void guard_set_plain(int slot, void *base, size_t size);
 /* verify canaries around all live objects of slot; returns 0 ok, else reports violation via cb */
 int guard_check_slot(int slot, const char *what);
 void guard_protect_slot(int slot, int prot_readonly); /* used by C12: make all objects read-only */
